@@ -148,6 +148,45 @@ def channel_case(p, res):
                         v("mean", f"{par}={val}: noise mean {mean} for configured noise power {want:.4g}")
                     if len(pol.requests) == 0:
                         res.seam_bypassed += 1
+        # ------------- (i') the same channel OBJECT used three times, parameter given as a 0-d tensor (as produced by snr_to_noise_power):
+        # every call must deliver the configured power and must not alter the caller's tensor
+        if par in ("power", "snr") and ch != "add_noise_for_snr":
+            import kaira.channels as K
+            val0 = values[len(values) // 2]
+            tval = torch.tensor(float(val0))
+            kwt = {"avg_noise_power": tval} if par == "power" else {"snr_db": tval}
+            try:
+                if ch == "awgn":
+                    cobj, runner, refr = K.AWGNChannel(**kwt), None, (lambda x: x)
+                elif ch == "laplacian":
+                    cobj, runner, refr = K.LaplacianChannel(**kwt), None, (lambda x: x)
+                elif ch.startswith("nonlinear"):
+                    fnl = (lambda t: t) if ch.endswith("id") else cubic
+                    cobj = K.NonlinearChannel(fnl, add_noise=True, complex_mode=mode, **kwt)
+                    c0 = K.NonlinearChannel(fnl, add_noise=False, complex_mode=mode)
+                    runner, refr = None, (lambda x: c0(x))
+                else:
+                    cobj = K.FlatFadingChannel("rayleigh", 3, **kwt)
+                    runner = lambda x: cobj(x, csi=torch.ones(x.shape, dtype=torch.complex64))  # noqa: E731
+                    refr = lambda x: x.to(torch.complex64)  # noqa: E731
+                x = signal(N, 1.0, cplx, 0)
+                for call in range(3):
+                    with Seam(Quantile()):
+                        y = runner(x) if runner else cobj(x)
+                    fx = refr(x)
+                    nzz = (y - fx).to(torch.complex128 if (y.is_complex() or fx.is_complex()) else torch.float64)
+                    pn = float((nzz.abs() ** 2).mean())
+                    fxp = float((fx.to(torch.complex128 if fx.is_complex() else torch.float64).abs() ** 2).mean())
+                    want = float(val0) if par == "power" else fxp / 10 ** (float(val0) / 10)
+                    res.ev(1, nontrivial=1, transitions=1)
+                    if abs(pn - want) > TOL * want:
+                        v("power" if par == "power" else "snr", f"call {call + 1} on the same channel object ({par} given as a 0-d tensor {float(val0)}): measured noise power {pn:.6g}, configured {want:.6g} (ratio {pn / want:.4f})", {"call": call})
+                        break
+                    if float(tval) != float(val0):
+                        v("power" if par == "power" else "snr", f"the caller's parameter tensor was modified: {float(val0)} -> {float(tval)} after call {call + 1}")
+                        break
+            except Exception as e:  # noqa: BLE001
+                v("raises", f"0-d tensor parameter / repeated calls: {type(e).__name__}: {str(e)[:200]}")
         # ------------- (ii) exact scale law under the alphabet policy (Gaussian channels: y = f(x) + s*z elementwise)
         L = 6
         zs = [0.5, -1.25, 2.0, -0.75, 1.5, -2.5, 0.25, 1.0, -1.0, 3.0, -0.5, 0.75]
